@@ -32,6 +32,10 @@ type c09Case struct {
 	// Burst (rpc): after the sequential calls, that many calls are made at once, each with its own
 	// FContext, and requests are decoded concurrently; every received context needs its own op id
 	Burst int `json:"burst,omitempty"`
+	// BigUser / BigResp > 0: one more request / response header whose value has that many bytes
+	// (header blocks beyond 64 KiB take another path through the reader)
+	BigUser int `json:"big_user,omitempty"`
+	BigResp int `json:"big_resp,omitempty"`
 }
 
 func genUserPairs(t *rapid.T, label string, max int) []KV {
@@ -80,6 +84,13 @@ func genC09(t *rapid.T) c09Case {
 	if rapid.IntRange(0, 3).Draw(t, "defaultTimeout") == 0 {
 		c.TimeoutMs = 5000
 	}
+	if rapid.IntRange(0, 5).Draw(t, "big?") == 0 {
+		sizes := []int{60000, 65500, 65536, 65537, 70000, 140000, 300000}
+		c.BigUser = rapid.SampledFrom(sizes).Draw(t, "biguser")
+		if c.Mode == "rpc" && rapid.Bool().Draw(t, "bigresp?") {
+			c.BigResp = rapid.SampledFrom(sizes).Draw(t, "bigresp")
+		}
+	}
 	c.Calls = rapid.IntRange(1, 4).Draw(t, "calls")
 	c.Reuse = rapid.IntRange(0, 2).Draw(t, "reuse") == 0
 	return c
@@ -111,8 +122,11 @@ func classifyC09(c c09Case) ev.Class {
 	if c.Burst > 0 {
 		labels = append(labels, "concurrent-calls")
 	}
+	if c.BigUser > 65536 || c.BigResp > 65536 {
+		labels = append(labels, "header-block>64KiB")
+	}
 	nt := (len(c.User) >= 1 && (len(c.Resp) >= 1 || c.Mode == "pubsub")) || c.TimeoutMs != 5000
-	return ev.Class{NonTrivial: nt, Key: fmt.Sprintf("%s|%s|%s|%x|%x|%s|%d|%d|%s", c.Mode, c.Transport, c.Proto, canonPairs(c.User), canonPairs(c.Resp), c.Cid, c.TimeoutMs, c.Calls, c.Outcome) + fmt.Sprint(c.Burst), Labels: labels}
+	return ev.Class{NonTrivial: nt, Key: fmt.Sprintf("%s|%s|%s|%x|%x|%s|%d|%d|%s", c.Mode, c.Transport, c.Proto, canonPairs(c.User), canonPairs(c.Resp), c.Cid, c.TimeoutMs, c.Calls, c.Outcome) + fmt.Sprint(c.Burst, c.BigUser, c.BigResp), Labels: labels}
 }
 
 var (
@@ -139,6 +153,14 @@ type seenCtx struct {
 // userFor returns the user headers of call i: the header set differs from call to call
 // (a stale header of an earlier call must not reappear).
 func (c c09Case) userFor(i int) []KV {
+	out := c.userFor0(i)
+	if c.BigUser > 0 {
+		out = append(out, kv("big-request-header", strings.Repeat("u", c.BigUser)))
+	}
+	return out
+}
+
+func (c c09Case) userFor0(i int) []KV {
 	if c.Reuse {
 		// a reused context can only accumulate headers
 		out := append([]KV{}, c.User...)
@@ -165,6 +187,9 @@ func (c c09Case) respFor(i int) []KV {
 	var out []KV
 	for _, p := range c.Resp {
 		out = append(out, KV{p.K, append(append([]byte{}, p.V...), []byte(fmt.Sprintf("@%d", i))...)})
+	}
+	if c.BigResp > 0 {
+		out = append(out, kv("big-response-header", strings.Repeat("r", c.BigResp)))
 	}
 	return out
 }
